@@ -993,14 +993,17 @@ def lame_cond(pair, x, y):
 
 @st.composite
 def lame_cases(draw):
-    return {"mu": draw(gen.logfloat(0.01, 100.0)), "nu": draw(gen.qfloat(0.05, 0.45, 0.01)),
+    # Poisson's ratio in [0, 0.5) (lame_parameters documents a ValueError for a negative first parameter), including
+    # the degenerate-but-valid value 0 (lambda = 0, E = 2 mu)
+    return {"mu": draw(gen.logfloat(0.01, 100.0)),
+            "nu": draw(st.one_of(gen.qfloat(0.0, 0.45, 0.01), st.sampled_from([0.0, 0.0, 0.25]))),
             "pair": list(draw(st.sampled_from(VALID_PAIRS))), "swap": draw(st.booleans()),
             "D": draw(gen.dims()), "A": draw(st.lists(gen.qfloat(-1.0, 1.0, 0.01), min_size=9, max_size=9))}
 
 
 def lame_enumerated(tier):
     for pair in VALID_PAIRS:
-        for mu, nu in ((1.0, 0.25), (0.8, 0.3), (0.0006, 0.45), (35.0, 0.1)):
+        for mu, nu in ((1.0, 0.25), (0.8, 0.3), (0.0006, 0.45), (35.0, 0.1), (0.7, 0.0), (2.0, 0.0)):
             yield {"mu": mu, "nu": nu, "pair": list(pair), "swap": False, "D": 2, "A": [0.3, -0.2, 0.5, 0.1, 0, 0, 0, 0, 0]}
 
 
@@ -1014,6 +1017,8 @@ def run_lame(case):
     # the forward formulas must reproduce the generated Poisson ratio (harness self-consistency)
     assert abs(qty["nu"] - nu) < 1e-12
     pair = case["pair"]
+    if nu == 0 and "lam" in pair and "nu" in pair:
+        raise Skip("lambda = nu = 0 does not determine mu")
     kw = {ELASTIC_NAMES[n]: qty[n] for n in pair}
     out = L.lame_parameters(**kw)
     if not (isinstance(out, tuple) and len(out) == 2):
@@ -1022,7 +1027,7 @@ def run_lame(case):
     cond = lame_cond(pair, qty[pair[0]], qty[pair[1]])
     r = 0.0
     for i, name in enumerate(("lambda", "mu")):
-        bound = 64 * EPS64 * cond[i]
+        bound = 64 * EPS64 * (cond[i] + abs(mu) + abs(lam))  # floor: results that are exactly 0 (lambda for nu = 0)
         r = max(r, check_close(float(out[i]), (lam, mu)[i], bound, "lame_table", f"lame_parameters({kw}): {name} vs generated ground truth"))
         r = max(r, check_close(float(out[i]), float(tab[i]), bound, "lame_table", f"lame_parameters({kw}): {name} vs textbook table"))
     # round trip through (E, nu): forward formulas on the result, then back through lame_parameters
@@ -1030,7 +1035,7 @@ def run_lame(case):
     again = L.lame_parameters(youngs_modulus=back["E"], poissons_ratio=back["nu"])
     c2 = lame_cond(("nu", "E"), back["nu"], back["E"])
     for i in range(2):
-        r = max(r, check_close(float(again[i]), (lam, mu)[i], 64 * EPS64 * (cond[i] + c2[i]), "lame_round_trip",
+        r = max(r, check_close(float(again[i]), (lam, mu)[i], 64 * EPS64 * (cond[i] + c2[i] + abs(mu) + abs(lam)), "lame_round_trip",
                                f"lame_parameters({kw}) -> (E, nu) -> lame_parameters(E, nu)"))
     # elasticity accepts the same pair: equals the closed form with the table values
     D = case["D"]
